@@ -45,36 +45,40 @@ def unexpected (t : Tk) : PErr :=
   | .other _ => .syntax "unexpected token"
   | _ => .syntax "did not expect token in this position"
 
+/-- the first half of `match_expr`: a prefix expression (atom, `-x`, `@x`, parenthesised expression); `sub` is the
+    parser for sub-expressions at a given precedence -/
+def primary (sub : Nat → List Tk → Except PErr (Node × List Tk)) (toks : List Tk) : Except PErr (Node × List Tk) :=
+  match toks with
+  | .at :: rest => do
+    let (a, rest) ← sub 3 rest
+    pure (Node.mem a, rest)
+  | .int t :: rest =>
+    (match Py.parseInt t 0 with
+     | some v => .ok (Node.int v, rest)
+     | none => .error (.syntax "invalid integer literal"))
+  | .minus :: rest => do
+    let (a, rest) ← sub 3 rest
+    pure (Node.prefix [45] a, rest)
+  | .reg t :: rest =>
+    (match Cli.registerToIndex t with
+     | some i => .ok (Node.reg i, rest)
+     | none => .error (.syntax "not a valid register"))
+  | .sym t :: rest => .ok (Node.sym t, rest)
+  | .lparen :: rest => do
+    let (e, rest) ← sub 0 rest
+    (match rest with
+     | .rparen :: rest => pure (e, rest)
+     | t :: _ => throw (unexpected t)
+     | [] => throw (unexpected .eof))
+  | t :: _ => .error (unexpected t)
+  | [] => .error (unexpected .eof)
+
 mutual
 /-- `match_expr(precedence)` -/
 def matchExpr : Nat → Nat → List Tk → Except PErr (Node × List Tk)
   | 0, _, _ => .error .fuel
   | fuel + 1, p, toks => do
-    let (left, rest) ←
-      (match toks with
-       | .at :: rest => do
-         let (a, rest) ← matchExpr fuel 3 rest
-         pure (Node.mem a, rest)
-       | .int t :: rest =>
-         (match Py.parseInt t 0 with
-          | some v => .ok (Node.int v, rest)
-          | none => .error (.syntax "invalid integer literal"))
-       | .minus :: rest => do
-         let (a, rest) ← matchExpr fuel 3 rest
-         pure (Node.prefix [45] a, rest)
-       | .reg t :: rest =>
-         (match Cli.registerToIndex t with
-          | some i => .ok (Node.reg i, rest)
-          | none => .error (.syntax "not a valid register"))
-       | .sym t :: rest => .ok (Node.sym t, rest)
-       | .lparen :: rest => do
-         let (e, rest) ← matchExpr fuel 0 rest
-         (match rest with
-          | .rparen :: rest => pure (e, rest)
-          | t :: _ => throw (unexpected t)
-          | [] => throw (unexpected .eof))
-       | t :: _ => .error (unexpected t)
-       | [] => .error (unexpected .eof) : Except PErr (Node × List Tk))
+    let (left, rest) ← primary (matchExpr fuel) toks
     infixLoop fuel p left rest
 /-- the `while infix_tkn.type in PREC_MAP and precedence < PREC_MAP[...]` loop -/
 def infixLoop : Nat → Nat → Node → List Tk → Except PErr (Node × List Tk)
